@@ -991,4 +991,30 @@ def init (c : CaseCfg) : W :=
   let w := w.growPool c.n   -- pre_start builds workers 0..n-1 exactly like grow_pool on an empty pool
   W.emit { w with poolSize := c.n } (.hook .started)
 
+/-! ## The histories excluded by finding F4 (stale completion) -/
+
+/-- keys of the `Finished` reports of slot `wid` that wait in the factory's mailbox -/
+def finKeys (wid : Nat) : List FMsg → List Nat
+  | [] => []
+  | .finished w k :: r => if w == wid then k :: finKeys wid r else finKeys wid r
+  | _ :: r => finKeys wid r
+
+/-- (F4) killing `aid` now would make a completion stale: it is alive, it is the worker of a pool
+slot, and a `Finished` report of that slot still waits in the factory's mailbox -/
+def W.staleKill (w : W) (aid : Nat) : Bool :=
+  match w.env.getActor aid with
+  | some a => a.alive && w.pool.any (fun p => p.actor == aid && !(finKeys p.wid w.inbox).isEmpty)
+  | none => false
+
+def Op.isStaleAt (w : W) : Op → Bool
+  | .kill aid => w.staleKill aid
+  | _ => false
+
+/-- no step of the run kills a worker incarnation whose completion report the factory has not
+processed yet — the exact, model-level form of the oracle's classifier `noStaleCompletion` -/
+def noStaleRun : W → List Step → Bool
+  | _, [] => true
+  | w, s :: rest =>
+    !(s.op.isStaleAt (W.advanceTo s.t0 (advanceFuel w s.t0) w)) && noStaleRun (w.stepOp s.op s.t0 s.tq s.te) rest
+
 end Factory
